@@ -329,6 +329,11 @@ def check(ctx):
     cls_calls = [c for c in calls_in(fg.node) if m.resolve_call(fg, c) == 'gambit.classify.classify']
     rep.add('R6', fg.site(cls_calls[0] if cls_calls else None), 'column j of the distance row is judged with genome j of the same database', len(cls_calls) == 1 and u(cls_calls[0].args[0]) == f'{fg.params()[0]}.genomes'
             and u(cls_calls[0].args[1]) == fg.params()[2], expected='classify(db.genomes, dists)', found=[u(c)[:60] for c in cls_calls], stmt='classify genomes')
+    # "every distance reported for a genome is computed from that signature": the matrix must select the reference chunk and the
+    # output columns through the same slice of ref_indices (C05-B5), re-evaluated here
+    from . import c05
+    rep.rule('B5', 'C05-B5 re-evaluated: one slice selects reference chunk (through ref_indices) and output columns; chunk tiling')
+    c05.check_matrix(ctx)
     # CLI loader
     fcli = m.func('gambit.cli.common.CLIContext.get_database')
     rep.functions.add(fcli.qualname)
@@ -358,6 +363,8 @@ VARIANTS = [
     V('signature pop without check', 'B', _R, "\t\tcheck_single_match(signatures_matches, 'signature (.gs or .h5)')\n", "", 'R5'),
     V('whitelist bypass for strings', 'B', _R, "\tif isinstance(attr, str) and attr in Genome.ID_ATTRS:", "\tif isinstance(attr, str):", 'R4'),
     V('locate returns crossed', 'B', _R, "\t\treturn genomes_file, signatures_file\n", "\t\treturn signatures_file, genomes_file\n", 'R5'),
+    V('contiguous-run slice path in the matrix (seeded C04b, reduced)', 'B', 'src/gambit/metric.py', "idx = ref_slice if ref_indices is None else ref_indices[ref_slice]",
+      "idx = ref_slice if ref_indices is None else slice(ref_indices[0] + ref_slice.start, ref_indices[0] + ref_slice.stop)", 'B5'),
     V('E: guard written as early continue', 'E', _R, "\t\tif g is not None:\n\t\t\tgenomes_out.append(g)\n\t\t\tidxs_out.append(i)\n",
       "\t\tif g is None:\n\t\t\tcontinue\n\t\tgenomes_out.append(g)\n\t\tidxs_out.append(i)\n"),
     V('E: completeness compared the other way round', 'E', _R, "if len(self.genomes) != n:", "if n != len(self.genomes):"),
